@@ -17,8 +17,13 @@
     * array headers of every width and the indefinite form; the element count must equal
       the number of struct fields;
     * trailing bytes after the first item are ignored (stream decoder).
-  Not modelled (never generated): tags (fxamacker strips them; tag 2 bignum → uint),
-  nested containers inside the array, indefinite-length strings.
+    * tags: every tag other than 0..3 is stripped (also nested, also in front of the array, also
+      the tag numbers gouroboros registers: 24, 30, 102, 121.., 258, 259, 1280.., 55799);
+      tag 2 (bignum) over a definite byte string decodes into an unsigned destination as the
+      big-endian value if it fits; tag 1 is accepted only directly over an unsigned integer;
+      tags 0 and 3 never decode into these types;
+    * containers inside the array are type errors (whatever they contain).
+  Not modelled (never generated): indefinite-length strings.
 -/
 namespace GV.Model.VersionData
 
@@ -162,11 +167,52 @@ def readScalar : Bytes → Option (Item × Bytes)
       else none
     else none
 
+def beValue (bs : Bytes) : Nat := bs.foldl (fun a b => a * 256 + b) 0
+
+/-- read one non-container item that may be wrapped in tags -/
+def readTagged : Nat → Bytes → Option (Item × Bytes)
+  | 0, _ => none
+  | _, [] => none
+  | fuel + 1, b :: r =>
+    if b / 32 = 6 then
+      match readArg (b % 32) r with
+      | none => none
+      | some (tag, r) =>
+        if tag = 0 ∨ tag = 3 then none
+        else if tag = 2 then
+          -- bignum: content must be a definite-length byte string
+          match r with
+          | c :: r =>
+            if c / 32 = 2 then
+              match readArg (c % 32) r with
+              | some (n, r) => if n ≤ r.length then some (Item.uint (beValue (r.take n)), r.drop n) else none
+              | none => none
+            else none
+          | [] => none
+        else if tag = 1 then
+          -- epoch time: only directly over an unsigned integer does it reach an unsigned destination
+          match r with
+          | c :: r => if c / 32 = 0 then (readArg (c % 32) r).map fun p => (Item.uint p.1, p.2) else none
+          | [] => none
+        else readTagged fuel r
+    else readScalar (b :: r)
+
+/-- strip leading tags in front of a container (tags 0..3 are not acceptable there) -/
+def stripTags : Nat → Bytes → Option Bytes
+  | 0, _ => none
+  | _, [] => none
+  | fuel + 1, b :: r =>
+    if b / 32 = 6 then
+      match readArg (b % 32) r with
+      | none => none
+      | some (tag, r) => if tag ≤ 3 then none else stripTags fuel r
+    else some (b :: r)
+
 /-- `n` items of a definite-length array -/
 def readItems : Nat → Bytes → Option (List Item × Bytes)
   | 0, r => some ([], r)
   | n + 1, r =>
-    match readScalar r with
+    match readTagged (r.length + 1) r with
     | some (i, r) => (readItems n r).map fun p => (i :: p.1, p.2)
     | none => none
 
@@ -176,7 +222,7 @@ def readIndef : Nat → Bytes → Option (List Item)
   | _ + 1, [] => none
   | fuel + 1, b :: r =>
     if b = 255 then some []
-    else match readScalar (b :: r) with
+    else match readTagged (r.length + 2) (b :: r) with
       | some (i, r) => (readIndef fuel r).map fun xs => i :: xs
       | none => none
 
@@ -186,8 +232,8 @@ inductive Top
   | bad
 deriving DecidableEq, Repr
 
-/-- first data item of the input -/
-def parseTop : Bytes → Top
+/-- an array (after its tags were stripped) -/
+def parseArr : Bytes → Top
   | [] => .bad
   | b :: r =>
     if b / 32 = 4 then
@@ -204,10 +250,16 @@ def parseTop : Bytes → Top
           | some (xs, _) => .arr xs
           | none => .bad
         | none => .bad
-    else
-      match readScalar (b :: r) with
-      | some (i, _) => .scalar i
-      | none => .bad
+    else .bad
+
+/-- first data item of the input -/
+def parseTop (b : Bytes) : Top :=
+  match readTagged (b.length + 1) b with
+  | some (i, _) => .scalar i
+  | none =>
+    match stripTags (b.length + 1) b with
+    | some b' => parseArr b'
+    | none => .bad
 
 def asU32 : Item → Option Nat
   | .uint n => if n < 4294967296 then some n else none
@@ -216,7 +268,7 @@ def asU32 : Item → Option Nat
   | _ => none
 
 def asU64 : Item → Option Nat
-  | .uint n => some n
+  | .uint n => if n < 18446744073709551616 then some n else none
   | .nullish => some 0
   | .simple n => some n
   | _ => none
@@ -259,6 +311,90 @@ def decode (k : Kind) (b : Bytes) : Option VData :=
   | .bad => none
   | .scalar i => decodeScalar k i
   | .arr xs => decodeArr k xs
+
+/-! ### well-formedness of an embedded data item
+
+`MsgAcceptVersion.VersionData` and the values of the proposal / query-reply maps are
+`cbor.RawMessage`s: the whole handshake message is checked by fxamacker's `wellformed` pass before
+any handler runs, and when the item is taken as a value the content heads of its chain of
+*leading* tags are validated for the built-in tags 0..3 (tags inside a container of the raw item
+are not looked at until a version decoder parses it). A data item that fails either makes the *message*
+undecodable. -/
+
+/-- content head allowed under a built-in tag (fxamacker `validBuiltinTag`) -/
+def validTagContent (tag c : Nat) : Bool :=
+  if tag = 0 then c / 32 == 3
+  else if tag = 1 then c / 32 == 0 || c / 32 == 1 || (249 ≤ c && c ≤ 251)
+  else if tag = 2 ∨ tag = 3 then c / 32 == 2
+  else true
+
+def decFrame : Option Nat → Option Nat
+  | some n => some (n - 1)
+  | none => none
+
+/-- stack machine over the bytes: a frame is the number of items still to read in a definite
+    container (`some n`) or an indefinite container waiting for its break (`none`) -/
+def wfRun : Nat → List (Option Nat) → Bytes → Option Bytes
+  | 0, _, _ => none
+  | _ + 1, [], r => some r
+  | f + 1, some 0 :: st, r => wfRun f st r
+  | _ + 1, _ :: _, [] => none
+  | f + 1, fr :: rest, b :: r =>
+    if b = 255 then (if fr = none then wfRun f rest r else none) else
+    let st := decFrame fr :: rest
+    let mt := b / 32
+    let ai := b % 32
+    if mt = 0 ∨ mt = 1 then
+      match readArg ai r with
+      | some (_, r) => wfRun f st r
+      | none => none
+    else if mt = 2 ∨ mt = 3 then
+      match readArg ai r with          -- indefinite-length strings: outside the model
+      | some (n, r) => match dropN? n r with
+        | some r => wfRun f st r
+        | none => none
+      | none => none
+    else if mt = 4 then
+      if ai = 31 then wfRun f (none :: st) r else
+      match readArg ai r with
+      | some (n, r) => wfRun f (some n :: st) r
+      | none => none
+    else if mt = 5 then
+      if ai = 31 then wfRun f (none :: st) r else
+      match readArg ai r with
+      | some (n, r) => wfRun f (some (2 * n) :: st) r
+      | none => none
+    else if mt = 6 then
+      match readArg ai r with
+      | some (_, c :: r) => wfRun f (some 1 :: st) (c :: r)
+      | _ => none
+    else
+      if ai < 24 then wfRun f st r
+      else if ai = 24 then
+        match r with
+        | s :: r => if s < 32 then none else wfRun f st r
+        | [] => none
+      else if ai = 25 then match dropN? 2 r with | some r => wfRun f st r | none => none
+      else if ai = 26 then match dropN? 4 r with | some r => wfRun f st r | none => none
+      else if ai = 27 then match dropN? 8 r with | some r => wfRun f st r | none => none
+      else none
+
+/-- every tag of the chain of leading tags, if it is a built-in tag, has an acceptable content
+    head (the head that follows it — another tag head is not acceptable for tags 0..3) -/
+def topTagValid : Nat → Bytes → Bool
+  | 0, _ => false
+  | _, [] => false
+  | fuel + 1, b :: r =>
+    if b / 32 = 6 then
+      match readArg (b % 32) r with
+      | some (tag, c :: r) => validTagContent tag c && topTagValid fuel (c :: r)
+      | _ => false
+    else true
+
+/-- exactly one well-formed data item whose outermost tag (if any) is valid: what a handshake
+    message can carry as version data -/
+def wellFormedOne (b : Bytes) : Bool :=
+  wfRun (2 * b.length + 4) [some 1] b == some [] && topTagValid (b.length + 1) b
 
 /-! ### generated entries -/
 
